@@ -40,8 +40,19 @@ func ParseSps(payload []byte, ctx *Context) error {
 	}
 	Log.Debugf("sps=%+v", sps)
 
-	ctx.Width = (sps.PicWidthInMbsMinusOne+1)*16 - (sps.FrameCropLeftOffset+sps.FrameCropRightOffset)*2
-	ctx.Height = (2-uint32(sps.FrameMbsOnlyFlag))*(sps.PicHeightInMapUnitsMinusOne+1)*16 - (sps.FrameCropTopOffset+sps.FrameCropBottomOffset)*2
+	// ISO-14496-10 7.4.2.1.1: the frame cropping offsets are in units of CropUnitX/CropUnitY, which depend on
+	// ChromaArrayType (4:2:0 -> 2x2, 4:2:2 -> 2x1, 4:4:4 and monochrome -> 1x1) and, vertically, on frame_mbs_only_flag
+	cropUnitX := uint32(1)
+	cropUnitY := 2 - uint32(sps.FrameMbsOnlyFlag)
+	switch sps.ChromaFormatIdc {
+	case 1:
+		cropUnitX = 2
+		cropUnitY *= 2
+	case 2:
+		cropUnitX = 2
+	}
+	ctx.Width = (sps.PicWidthInMbsMinusOne+1)*16 - (sps.FrameCropLeftOffset+sps.FrameCropRightOffset)*cropUnitX
+	ctx.Height = (2-uint32(sps.FrameMbsOnlyFlag))*(sps.PicHeightInMapUnitsMinusOne+1)*16 - (sps.FrameCropTopOffset+sps.FrameCropBottomOffset)*cropUnitY
 
 	ctx.Sps = sps
 	return nil
